@@ -566,7 +566,11 @@ TOK_SIGS = [(4, 4), (3, 4), (2, 4), (6, 8), (5, 8), (2, 2), (12, 8), (3, 16), (7
             (4, 2), (2, 1), (8, 4), (16, 8), (1, 4), (4, 16), (4, 2), (16, 8)]   # both ends of the signature range (2 and 16 eighths)
 
 
-def gen_cfg(r, small=True, valid_bins=False):
+HIRES_STEPS = [[120, 240, 480, 960, 1920], [480, 1920], [240, 480, 960], [1920]]
+HIRES_VALUES = [[120, 240, 480, 960, 1920], [480, 960, 1920, 3840], [240, 1440], [1920]]
+
+
+def gen_cfg(r, small=True, valid_bins=False, hires=True):
     nt = r.choice([1, 1, 2, 3, 4])
     pr = r.choice([(60, 64), (58, 66), (60, 61), (21, 108)] if not small else [(60, 64), (58, 66), (60, 61), (60, 72)])
     steps = r.choice([None, None, None, [12, 24], [6, 12, 24], [2, 4, 8, 16], [3, 6, 12, 24, 48], [24], [24, 12], [16, 2, 8, 4], [12, 12, 24]])
@@ -576,9 +580,15 @@ def gen_cfg(r, small=True, valid_bins=False):
     size = (nt if flags[1] else 1) * (pr[1] - pr[0] + 1) * ((len(values) if values else 9) if flags[2] else 1) * \
         (nb if flags[3] else 1)
     if size > 2500:      # keep one vocabulary small enough to be rendered inside Coq in about a second
-        return gen_cfg(r, small, valid_bins)
+        return gen_cfg(r, small, valid_bins, hires)
     tsr = r.choice([(2, 16)] * 6 + [(2, 8), (4, 12), (1, 32), (8, 8)])
-    return (nt, pr[0], pr[1], steps, values, nb) + flags + (r.choice([24] * 10 + [48, 12, 15, 25]), tsr)
+    ppqn = r.choice([24] * 10 + [48, 12, 15, 25])
+    if hires and r.random() < 0.12:
+        # a MIDI-file resolution (480 ticks per quarter note): step sizes and note values with four digits
+        ppqn, steps, values = 480, r.choice(HIRES_STEPS), r.choice(HIRES_VALUES)
+    elif hires and r.random() < 0.05:
+        steps, values = r.choice([[12, 24, 1200], steps]), r.choice([[12, 24, 1008], values])
+    return (nt, pr[0], pr[1], steps, values, nb) + flags + (ppqn, tsr)
 
 
 def mk_tok(cfg):
@@ -624,14 +634,15 @@ def gen_piece(r, cfg, valid=True, nbars=None, meta_first=False):
     if not cfg[3]:
         unit = 2
     nbars = r.randint(0, 4) if nbars is None else nbars
+    W = 1920 if len(cfg) > 11 and cfg[11] == 480 else 96      # ticks of a whole note on the grid the piece is written on
     sig, t, metas, bounds = (4, 4), 0, [], []
     for b in range(nbars):
         if r.random() < (0.5 if b == 0 else 0.3):
-            cands = [s for s in TOK_SIGS if (96 * s[0] // s[1]) % unit == 0] or [(4, 4)]
+            cands = [s for s in TOK_SIGS if (W * s[0] // s[1]) % unit == 0] or [(4, 4)]
             sig = r.choice(cands)
             metas.append(TS(0, sig[0], sig[1], t))
         bounds.append(t)
-        t += 96 * sig[0] // sig[1]
+        t += W * sig[0] // sig[1]
     total = t
     tracks = []
     meta_track = 0 if (meta_first or r.random() < 0.6) else r.randrange(nt)     # the signature map may live in any track
@@ -756,10 +767,15 @@ def partition(r, n):
 
 
 def _gen_stateful(r):
-    cfg = gen_cfg(r, valid_bins=True)
+    cfg = gen_cfg(r, valid_bins=True, hires=False)     # the bars come from sequences_split_bars, i.e. the library's PPQN
     tracks = gen_piece(r, cfg, valid=True, nbars=r.randint(1, 5), meta_first=True)
+    if r.random() < 0.4:         # every track on MIDI channel 0 (as loaded from most files): tokenise re-channels them
+        tracks = [[m[:1] + (0,) + m[2:] for m in ms] for ms in tracks]
     seed = r.randrange(1 << 30)
-    return cfg, tracks, seed, r.random() < 0.3          # last: call tokenise with insert_bar_token=False
+    # nobar: call tokenise with insert_bar_token=False; shared: the README's usage -- the bars have been inspected
+    # (absolute views materialised), the whole piece is re-joined from the SAME bar objects and tokenised first, and
+    # a group of one bar hands over bar.sequence itself
+    return cfg, tracks, seed, r.random() < 0.3, r.random() < 0.4
 
 
 def _bars_of(tracks):
@@ -770,13 +786,26 @@ def _bars_of(tracks):
 def _impl_stateful(inp):
     cfg, tracks, seed = inp[0], inp[1], inp[2]
     nobar = len(inp) > 3 and inp[3]
+    shared = len(inp) > 4 and inp[4]
     t = mk_tok(cfg)
     bars = _bars_of(tracks)
     nb = len(bars[0])
     groups = partition(random.Random(seed), nb)
     sd, out = {}, ""
+    whole_first = None
+    if shared:
+        for tb in bars:
+            for b_ in tb:
+                try:
+                    b_.sequence.get_sequence_duration()      # an abs-based public read
+                except IndexError:
+                    pass
+        try:
+            whole_first = "%" + " ".join(t.tokenise([Bar.to_sequence(tb) for tb in bars], insert_bar_token=not nobar))
+        except Exception as e:
+            whole_first = "%" + show_exc(e)
     for a, b in groups:
-        seqs = [Bar.to_sequence(tb[a:b]) for tb in bars]
+        seqs = [(tb[a].sequence if shared and b - a == 1 else Bar.to_sequence(tb[a:b])) for tb in bars]
         try:
             toks = t.tokenise(seqs, state_dict=sd, insert_bar_token=not nobar)
         except Exception as e:
@@ -784,6 +813,8 @@ def _impl_stateful(inp):
             break
         out += " ".join(toks) + "#" + show_state(sd) + "$"
     # the other side of the property: the whole piece in ONE call, without a state dictionary
+    if whole_first is not None:
+        return out + whole_first
     try:
         whole = t.tokenise([Bar.to_sequence(tb) for tb in _bars_of(tracks)], insert_bar_token=not nobar)
         out += "%" + " ".join(whole)
@@ -912,7 +943,7 @@ def gen_history(r, nsteps=None, two_sided=False):
                       "OQnl", "OQuantNorm", "ORefresh", "OReadAbs", "OReadRel", "OEquals", "OPairings", "ODuration",
                       "OEditAbs", "OEditRel", "OCopy", "OCopy", "OBarInit", "OBarCopy", "OSplitBars", "new",
                       "OReadAbs", "OReadRel", "ONormalise", "OTranspose", "OQuantDefault", "OQnlDefault", "OQuantNormDefault",
-                      "OScaleQ"])
+                      "OScaleQ", "OScaleDown"])
         if k == "new":
             new()
         elif k == "OCopy":
@@ -945,12 +976,18 @@ def gen_history(r, nsteps=None, two_sided=False):
             ops.append((k, i, G.gen_rel_wf(r, n=r.randint(0, 3), pitches=[60, 61], hi=40, extra=False)))
         elif k == "OSplit":
             caps = G.gen_caps(r)
-            ops.append((k, i, caps)); 
+            # the model's split does not track the int/float type of the remaining capacity (Seq.v): objects that carry
+            # float waits (after scale(1/k)) are read instead
+            ops.append((k, i, caps) if not _has_float(ops, i) else ("OReadRel", i))
             # number of pieces is not known here: the executor appends as many kinds as pieces
         elif k == "OScale":
             ops.append((k, i, r.randint(1, 4)))
         elif k == "OScaleQ":
             ops.append((k, i, r.randint(1, 3)))
+        elif k == "OScaleDown":
+            ops.append((k, i, r.choice([2, 2, 4]), r.choice([None, i, r.randrange(n)]), r.random() < 0.5))
+            if not _integral(ops):
+                ops.pop()
         elif k in ("OQuantDefault", "OQnlDefault", "OQuantNormDefault"):
             ops.append((k, i))
         elif k == "OTranspose":
@@ -994,7 +1031,9 @@ def gen_history(r, nsteps=None, two_sided=False):
                 pass
         elif k == "OSplitBars":
             is_ = list(dict.fromkeys(r.randrange(n) for _ in range(r.choice([1, 1, 2]))))
-            ops.append((k, is_, r.randrange(len(is_)), r.random() < 0.5))
+            is_ = [j for j in is_ if not _has_float(ops, j)]        # bar splitting is built on split (see OSplit)
+            if is_:
+                ops.append((k, is_, r.randrange(len(is_)), r.random() < 0.5))
         # the executor tells how many objects an op appended; the generator must know n: recompute by dry run
         n = _dry_count(ops)
     return ops
@@ -1045,6 +1084,11 @@ def _exec(ops, upto=None, trace=True, return_store=False, hook=None):
                 store[o[1]].scale(o[2], quantise_afterwards=False)
             elif k == "OScaleQ":
                 store[o[1]].scale(o[2])                      # default: quantise_and_normalise afterwards
+            elif k == "OScaleDown":
+                if o[3] is not None:
+                    store[o[3]].abs
+                    store[o[3]].rel
+                store[o[1]].scale(1 / o[2], meta_sequence=None if o[3] is None else store[o[3]], quantise_afterwards=o[4])
             elif k == "OQuantDefault":
                 store[o[1]].quantise()
             elif k == "OQnlDefault":
@@ -1070,7 +1114,8 @@ def _exec(ops, upto=None, trace=True, return_store=False, hook=None):
             elif k == "OPairings":
                 store[o[1]].get_message_pairings()
             elif k == "ODuration":
-                out = str(store[o[1]].get_sequence_duration())
+                d_ = store[o[1]].get_sequence_duration()
+                out = str(int(d_) if isinstance(d_, float) and d_.is_integer() else d_)
             elif k == "OEditAbs":
                 peek = len(o) > 3 and o[3]
                 for idx, m in enumerate(store[o[1]].messages_abs()):
@@ -1114,6 +1159,29 @@ def _exec(ops, upto=None, trace=True, return_store=False, hook=None):
     return "$".join(tr)
 
 
+def _has_float(ops, i):
+    store, _ = _exec(ops, return_store=True)
+    for rep in (getattr(store[i], "_abs", None), getattr(store[i], "_rel", None)):
+        if any(isinstance(m.time, float) for m in (rep._messages if rep is not None else [])):
+            return True
+    return False
+
+
+def _integral(ops):
+    """no message of the store carries a non-integral float time (Sequence.scale(1/k) on an odd wait): such values are
+    outside the model (integers with a float tag)"""
+    ops = list(ops)
+    if ops and ops[-1][0] == "OScaleDown":
+        ops[-1] = ops[-1][:4] + (False,)          # look at the scaled values before any re-quantisation
+    store, _ = _exec(ops, return_store=True)
+    for s_ in store:
+        for rep in (getattr(s_, "_abs", None), getattr(s_, "_rel", None)):
+            for m in (rep._messages if rep is not None else []):
+                if isinstance(m.time, float) and not m.time.is_integer():
+                    return False
+    return True
+
+
 def _dry_count(ops):
     store, _ = _exec(ops, return_store=True)
     return len(store)
@@ -1150,6 +1218,10 @@ def lit_op(o):
         return f"OQuantNorm {nat(o[1])} (get_default_step_sizes 0 0) get_default_note_values"
     if k == "OScaleQ":
         return f"HSEQ[OScale {nat(o[1])} {z(o[2])}; OQuantNorm {nat(o[1])} (get_default_step_sizes 0 0) get_default_note_values]"
+    if k == "OScaleDown":
+        meta = "None" if o[3] is None else f"(Some {nat(o[3])})"
+        then_ = f"[OQuantNorm {nat(o[1])} (get_default_step_sizes 0 0) get_default_note_values]" if o[4] else "[]"
+        return f"HSCALEDOWN {nat(o[1])} {z(o[2])} {meta} {then_}"
     if k in ("OOverwriteAbs", "OOverwriteRel"):
         return f"{k} {nat(o[1])} {lit_msgs(o[2])}"
     if k in ("OSplit", "OQuantise"):
@@ -1177,9 +1249,53 @@ def lit_hops(ops):
     out = []
     for o in ops:
         l = lit_op(o)
-        out.append("HSeq " + l[4:] if l.startswith("HSEQ[") else f"HOp ({l})")
+        out.append("HSeq " + l[4:] if l.startswith("HSEQ[") else "HScaleDown " + l[11:] if l.startswith("HSCALEDOWN ") else f"HOp ({l})")
     return "[" + "; ".join(out) + "]"
 
+
+def gen_scale_down(r):
+    """histories around Sequence.scale(1/k, meta_sequence): objects on an even grid with time signatures, the meta
+    sequence being None, the receiver itself or another object, from every freshness state, followed by reads"""
+    def obj():
+        notes = [(c, p, 12 * on, 12 * d, v) for c, p, on, d, v in
+                 G.gen_notes(r, n=r.randint(0, 4), chans=[0, 0, 1], pitches=[60, 61, 62], hi=20)]
+        notes = [(c, p, on, min(d, 96), v) for c, p, on, d, v in notes]
+        ms = []
+        for c, p, on, d, v in notes:
+            ms += [ON(c, p, v, on), OFF(c, p, on + d)]
+        t = 0
+        for _ in range(r.choice([0, 1, 1, 2, 3])):
+            a, b = r.choice([(4, 4), (3, 4), (2, 4), (6, 8), (2, 2), (4, 4), (3, 4), (1, 4), (8, 8), (5, 4)])
+            ms.append(TS(0, a, b, t))
+            t += (96 * a // b) * r.choice([1, 1, 2, 3])
+        if r.random() < 0.3:
+            ms.append(KS(0, r.choice(G.KEYS), r.choice([0, 48, 96])))
+        r.shuffle(ms)
+        if r.random() < 0.5:
+            return ("ONewAbs", ms)
+        rel = G.abs_to_rel(ms)
+        if r.random() < 0.4:
+            rel.append(WT(0, r.choice([12, 24, 48])))
+        return ("ONewRel", rel)
+    ops = [obj()]
+    n = 1
+    if r.random() < 0.6:
+        ops.append(obj() if r.random() < 0.6 else ("OCopy", 0)); n = 2
+    for _ in range(r.choice([0, 1, 1, 2])):
+        ops.append((r.choice(["OReadAbs", "OReadRel", "ORefresh", "OPairings"]), r.randrange(n)))
+    for _ in range(r.choice([1, 1, 2])):
+        i = r.randrange(n)
+        ops.append(("OScaleDown", i, r.choice([2, 2, 2, 4]), r.choice([None, i, i, r.randrange(n)]), r.random() < 0.5))
+        if not _integral(ops):
+            ops.pop()
+        ops.append((r.choice(["OReadAbs", "OReadRel"]), i))
+        k2 = r.choice(["OReadAbs", "OReadRel", "ODuration", "OTranspose"])
+        ops.append((k2, r.randrange(n)) + ((1,) if k2 == "OTranspose" else ()))
+    return ops
+
+
+Op("scale_down", gen_scale_down, lambda ops_: _exec(ops_), lambda ops_: f"show_trace_h {lit_hops(ops_)}",
+   lambda ops_: any(o[0] == "OScaleDown" for o in ops_))
 
 Op("history", lambda r: gen_history(r), lambda ops_: _exec(ops_), lambda ops_: f"show_trace_h {lit_hops(ops_)}",
    lambda ops_: len(ops_) >= 4)
